@@ -295,11 +295,18 @@ func checkCase(c Case) error {
 			// the removers leave together: two owner-side Remove calls and, every
 			// other time, the remote terminate() of a client
 			gate := make(chan struct{})
-			for k := 0; k < 2; k++ {
+			// the owner-side removers meet at a spinning barrier so that they
+			// enter Remove within a few nanoseconds of each other
+			removers := 2 + op.Target%3
+			var arrived int32
+			for k := 0; k < removers; k++ {
 				wg.Add(1)
 				go func() {
 					defer wg.Done()
 					<-gate
+					atomic.AddInt32(&arrived, 1)
+					for spin := 0; atomic.LoadInt32(&arrived) < int32(removers) && spin < 1000000; spin++ {
+					}
 					if svc.Remove(o.id) == nil {
 						atomic.AddInt32(&okCount, 1)
 					}
@@ -328,7 +335,7 @@ func checkCase(c Case) error {
 				return vt.Violationf("C16:race-hangs", "step %d: concurrent Remove x2 + call on object %d did not finish within %v", i, o.id, bound)
 			}
 			if okCount != 1 {
-				return vt.Violationf("C16:concurrent-remove", "step %d: %d concurrent removals of object %d (Remove x2, terminate every other time) succeeded instead of exactly one", i, okCount, o.id)
+				return vt.Violationf("C16:concurrent-remove", "step %d: %d concurrent removals of object %d (2..4 Remove calls, terminate every other time) succeeded instead of exactly one", i, okCount, o.id)
 			}
 			if cerr == nil && res != "r:race" {
 				return vt.Violationf("C16:wrong-answer", "step %d: racing call answered %q", i, res)
